@@ -11,6 +11,7 @@ package redisemu
 //@ inline
 
 //@ func extractBitfield
+//@ pure
 //@ prop C18 C13
 //@ fresh sq in 0..(1<<40) witness start/8
 //@ fresh sb in 0..7 split witness start%8
@@ -24,6 +25,7 @@ package redisemu
 //@ func setBitfield
 //@ prop C18 C13
 //@ writes bytes
+//@ modifies nothing
 //@ fresh sq in 0..(1<<40) witness start/8
 //@ fresh sb in 0..7 split witness start%8
 //@ fresh wd in 1..64 split witness width
@@ -37,6 +39,7 @@ package redisemu
 //@ loop 1 unroll 8
 
 //@ func isSignedSumOverflow
+//@ pure
 //@ prop C18
 //@ fresh bw in 1..64 split witness bits
 //@ subst bits = bw
@@ -45,6 +48,7 @@ package redisemu
 //@ ensures iff: result == specSignedSumOverflows(a, b, bits)
 
 //@ func isUnsignedOverflow
+//@ pure
 //@ prop C18
 //@ fresh bw in 1..63 split witness bits
 //@ subst bits = bw
@@ -53,6 +57,7 @@ package redisemu
 //@ ensures iff: result == !specFitsUnsigned(value, bits)
 
 //@ func signExtend
+//@ pure
 //@ prop C18
 //@ fresh bw in 1..64 split witness bits
 //@ subst bits = bw
@@ -61,6 +66,7 @@ package redisemu
 //@ ensures value: result == specSignExtend(value, bits)
 
 //@ func saturateValue
+//@ pure
 //@ prop C18
 //@ fresh bw in 1..64 split witness bits
 //@ subst bits = bw
